@@ -142,7 +142,7 @@ def accepted_prefix(op):
     return prims[:head + op["veto_at"]], "value"
 
 
-MODEL_STRIP = ("create", "asset", "deleter", "stored_only", "proxy", "named", "veto_at")
+MODEL_STRIP = ("create", "asset", "deleter", "stored_only", "proxy", "named", "veto_at", "oneshot")
 
 
 def model_apply(drv, op, extra=None):
